@@ -83,6 +83,22 @@ def check_kaisa(plan: dict[str, Any], bad: Any, stats: Any) -> None:
                 bad('C06.row_column_intersection', world=W, k=k)
                 break
     for r, a in asg.items():
+        try:
+            _kaisa_rank_checks(plan, bad, stats, r, a, a0, r0, calls, layers,
+                               cols, rows, work, colocate, W, k)
+        except Exception as e:  # noqa: BLE001
+            bad('C06.query_raised', rank=r, error=repr(e))
+    want_groups = {tuple(sorted(g)) for g in cols | rows}
+    if set(calls[r0]) != want_groups or len(calls[r0]) != len(want_groups):
+        bad('C06.groups_created', world=W, k=k, got=len(calls[r0]),
+            want=len(want_groups))
+
+
+def _kaisa_rank_checks(plan: Any, bad: Any, stats: Any, r: int, a: Any,
+                       a0: Any, r0: int, calls: Any, layers: Any, cols: Any,
+                       rows: Any, work: Any, colocate: bool, W: int,
+                       k: int) -> None:
+    if True:
         if set(a.get_layers()) != set(layers):
             bad('C06.layers', rank=r)
         if calls[r] != calls[r0]:
@@ -133,10 +149,6 @@ def check_kaisa(plan: dict[str, Any], bad: Any, stats: Any) -> None:
                     src=src)
             if a.factor_group(layer, 'A') is not None:
                 bad('C06.factor_group_not_world', rank=r, layer=layer)
-    want_groups = {tuple(sorted(g)) for g in cols | rows}
-    if set(calls[r0]) != want_groups or len(calls[r0]) != len(want_groups):
-        bad('C06.groups_created', world=W, k=k, got=len(calls[r0]),
-            want=len(want_groups))
 
 
 def check_fractions(plan: dict[str, Any], bad: Any, stats: Any) -> None:
@@ -253,6 +265,17 @@ def check_neox_assignment(plan: dict[str, Any], bad: Any, stats: Any) -> None:
         dist.new_group = real
     stats['assignments_built'] += W
     for r in range(W):
+        try:
+            _neox_rank_checks(plan, bad, stats, r, asg, topo, dpl, mpl,
+                              calls, W)
+        except Exception as e:  # noqa: BLE001
+            bad('C12.query_raised', rank=r, error=repr(e))
+
+
+def _neox_rank_checks(plan: Any, bad: Any, stats: Any, r: int, asg: Any,
+                      topo: Any, dpl: Any, mpl: Any, calls: Any,
+                      W: int) -> None:
+    if True:
         a = asg[r]
         stage = topo.get_coord(r).pipe
         work = plan['work'][str(stage)]
